@@ -763,6 +763,17 @@ func (x *Exec) ghostBack(st, sub *State, cond string) {
 		}
 		st.ghost[g] = fmt.Sprintf("(ite %s %s %s)", cond, v, old)
 	}
+	// ghost fields set at the site (G| heaps)
+	for k, v := range sub.heap {
+		if !strings.HasPrefix(k, "G|") {
+			continue
+		}
+		if old, ok := st.heap[k]; ok && old != v {
+			st.heap[k] = fmt.Sprintf("(ite %s %s %s)", cond, v, old)
+		} else if !ok {
+			st.heap[k] = fmt.Sprintf("(ite %s %s %s)", cond, v, x.vc.heapGet(st, k))
+		}
+	}
 }
 
 func (x *Exec) runDefers(fr *Frame, st *State) {
